@@ -387,8 +387,18 @@ class Check:
         if ex:
             for k, lines in enumerate(ex(self.gen_tier) or []):
                 yield Scenario(lines, "exhaustive:%d" % k)
-        for k, lines in enumerate(self.P.gen(rng, self.gen_tier)):
-            yield Scenario(lines, "gen:%d:%d" % (self.seed, k))
+        # a generator that fails (e.g. its helper process starved on a loaded host) must not take the check down, and must
+        # not look like a property violation: what it produced so far is used, the failure is retried once and recorded
+        for attempt in (0, 1):
+            k = -1
+            try:
+                for k, lines in enumerate(self.P.gen(rng if attempt == 0 else random.Random(self.seed + 7919), self.gen_tier)):
+                    yield Scenario(lines, "gen:%d:%d:%d" % (self.seed, attempt, k))
+                break
+            except Exception as e:
+                import traceback
+                self.extra.setdefault("generator_errors", []).append("%r after %d scenarios: %s" % (e, k + 1, traceback.format_exc()[-400:]))
+                print("WARNING: scenario generator of %s failed (%r) after %d scenarios%s" % (self.id, e, k + 1, "; retrying once" if attempt == 0 else ""))
 
     def changed_sources(self):
         """non-test .go files of the tree under test that differ from the tree the models were last validated against
